@@ -29,15 +29,35 @@ package access
 //@   ensures allow-first: blocked == (!(inASNs(p.allowedASN, l) || inNets(p.allowedNets, ip)) &&
 //@             (inASNs(p.blockedASN, l) || inNets(p.blockedNets, ip)))
 
-// The blocked-name rules are matched by urlfilter (dependency).
-//@ fun hostRuleBlocked(eng *blockedHostEngine, req *dns.Msg) bool
-//@ func (*blockedHostEngine).isBlocked
+// The blocked-name rules are matched by urlfilter (dependency): nameRuleBlocked
+// is its verdict for an engine, a host name and a query type.  The engine is
+// asked about the normalised (lower-case, no trailing dot) question name.
+//@ import urlfilter github.com/AdguardTeam/urlfilter
+//@ import sync sync
+//@ fun nameRuleBlocked(eng *urlfilter.DNSEngine, host string, qt int) bool
+//@ pred normQ(name string) = name == "." ? "." : lowerOf(trimSuffix(name, "."))
+//@ pred hostRuleBlocked(e *blockedHostEngine, req *dns.Msg) = nameRuleBlocked(e.lazyEngine, normQ(req.Question[0].Name), req.Question[0].Qtype)
+//@ func (*urlfilter.DNSEngine).MatchRequest
+//@   params d, r
 //@   modifies nothing
+//@   ensures r1 ==> r0 != nil
+//@   ensures (r1 && (r0.NetworkRule != nil ==> !r0.NetworkRule.Whitelist)) == nameRuleBlocked(d, r.Hostname, r.DNSType)
+// sync.Once runs the initialiser once; afterwards the engine is there.
+//@ func (*sync.Once).Do
+//@   modifies blockedHostEngine.lazyEngine
+//@ func (*blockedHostEngine).isBlocked
+//@   property C10
+//@   requires e != nil && req != nil && len(req.Question) >= 1
+//@   modifies blockedHostEngine.lazyEngine
+//@   atcall MatchRequest assume initialised-by-the-once: e.lazyEngine != nil
+//@   atcall MatchRequest assert asked-about-the-normalised-name: arg1.Hostname == normQ(req.Question[0].Name) && arg1.DNSType == req.Question[0].Qtype
 //@   ensures blocked == hostRuleBlocked(e, req)
 
 //@ fun addrOf(ap netip.AddrPort) netip.Addr
 
 //@ func (*DefaultProfile).IsBlocked
 //@   property C10
+//@   requires p != nil && p.blockedHostsEng != nil && req != nil && len(req.Question) >= 1
+//@   modifies blockedHostEngine.lazyEngine
 //@   ensures blocked == ((!(inASNs(p.allowedASN, l) || inNets(p.allowedNets, addrOf(rAddr))) &&
 //@             (inASNs(p.blockedASN, l) || inNets(p.blockedNets, addrOf(rAddr)))) || hostRuleBlocked(p.blockedHostsEng, req))
